@@ -14,6 +14,7 @@
                                  consumer of u not registered NOW -> mark u for removal, next
                                  data := search NOW; empty / fewer than multiplicity -> next
                                  process_notifications(u, data):
+                                    u not in the subscription list NOW (cancelled since the snapshot) -> next
                                     last := recorded time of u, NOW truncated if there is none
                                     interval not passed -> next
                                     record NOW truncated as the time of u      <- before the callback
@@ -67,6 +68,9 @@ Definition cur_last (s : st) (u : sub) : Z :=
   | Some v => u_last v
   | None => trunc_s (now s)
   end.
+(* `subscription in self.subscriptions`, looked up when the attendance reaches u: still in the list, not cancelled
+   (unsubscription, deregistration of its consumer) since the snapshot was made *)
+Definition listed (s : st) (u : sub) : bool := mem (u_cb u) (map u_cb (subs s)).
 Definition interval_passed (t : Z) (nt : option Z) (last : Z) : bool :=
   match nt with None => true | Some n => last + n <=? trunc_s t end.
 Definition stamp (s : st) (cb t : Z) : st :=
@@ -132,7 +136,8 @@ Definition mstep (tbl : list (Z * script)) (c : cfg) : option (cfg * list ev) :=
       then Some (mkCfg s (c_scripts c) (c_ids c) (FAtt rest (u_cb u :: marked) mk out :: k), [])
       else
         let data := data_of s u in
-        if negb (nonempty data) || negb (mult_ok u (length data)) || negb (interval_passed (now s) (u_nt u) (cur_last s u))
+        if negb (nonempty data) || negb (mult_ok u (length data)) || negb (listed s u)
+           || negb (interval_passed (now s) (u_nt u) (cur_last s u))
         then Some (mkCfg s (c_scripts c) (c_ids c) (FAtt rest marked mk out :: k), [])
         else
           let '(r, scr) := pop_script (u_cb u) (c_scripts c) in
@@ -193,24 +198,21 @@ Fixpoint last_call (cb : Z) (h : list ev) : option Z :=
   | ECall u _ t :: r => if u_cb u =? cb then Some t else last_call cb r
   | _ :: r => last_call cb r
   end.
-(* a subscription is out of the game: not in the list and no attendance under way still has it ahead *)
-Definition ahead (cb : Z) (f : frame) : Prop :=
-  match f with FAtt rest _ _ _ => In cb (map u_cb rest) | _ => False end.
-Definition gone (cb : Z) (c : cfg) : Prop :=
-  ~ In cb (map u_cb (subs (c_st c))) /\ (forall f, In f (c_stack c) -> ~ ahead cb f) /\ cb < next_cb (c_st c).
+(* a subscription is cancelled: no subscription with its callback is in the list (callback numbers are handed out
+   once: cb < next_cb means the number will not be used again) *)
+Definition cancelled (cb : Z) (c : cfg) : Prop :=
+  ~ In cb (map u_cb (subs (c_st c))) /\ cb < next_cb (c_st c).
 
 (* "after its cancellation (unsubscription, deregistration) the callback of a subscription is not invoked again", for
    histories with acting consumers. A step of a history cancels u when u is in the subscription list before it and no
-   subscription with that callback is in the list after it.
-   strong = true: whatever is under way (what the property asks for);
-   strong = false: provided no attendance under way still has the subscription ahead of it - in particular for every
-   cancellation that is an operation of the history proper (no attendance is under way then). *)
-Definition no_call_after_cancel_stmt (strong : bool) : Prop :=
+   subscription with that callback is in the list after it. Whatever is under way at that moment - in particular an
+   attendance that took its snapshot of the list before the cancellation and still has u ahead of it (the cancellation
+   was made from inside a notification callback of that attendance) - no later event of the history is a call of u. *)
+Definition no_call_after_cancel_stmt : Prop :=
   forall tbl t0 ops n c' evs u,
     let c := mcfg n tbl (start t0 ops) in
     mstep tbl c = Some (c', evs) ->
     In u (subs (c_st c)) -> ~ In (u_cb u) (map u_cb (subs (c_st c'))) ->
-    (strong = false -> forall f, In f (c_stack c') -> ~ ahead (u_cb u) f) ->
     forall fuel e, In e (fst (mrun fuel tbl c')) -> ~ is_call_of (u_cb u) e.
 
 (* ============================================================================== *)
